@@ -119,7 +119,11 @@ def setup(T, NODE, CTX, variant, fmt="json"):
             if name[0] in "nk":
                 env0[name] = fill if name[0] == "n" else 0
         v0 = S.wrap(n0.make(env0))
-        if fmt == "toml" and has_none(S.real_enc.__self__ if False else S.basic(v0)):
+        # warm-up: lazily compiled / postponed methods must be compiled here, untraced, not during the symbolic run
+        st, doc0 = call(S.enc, v0)
+        if st == "ok":
+            call(S.dec, transport_image(doc0, fmt))
+        if fmt == "toml" and has_none(S.basic(v0)):
             continue
         real_check(S, v0)
     return S
